@@ -265,3 +265,55 @@ func baseCase(stream string, schema M, docs []any, labels ...string) *core.PCase
 }
 
 func jsonUnmarshalString(s string, out *string) error { return json.Unmarshal([]byte(s), out) }
+
+// addStaleDefinitions gives a schema that keeps its definitions under "$defs" a legacy "definitions" block with the
+// same names and different content.  "#/$defs/<name>" points into "$defs"; a keyword block the references do not
+// point into must not change what they resolve to.  Reports whether the schema qualified.
+func addStaleDefinitions(root M) bool {
+	defs, ok := root["$defs"].(M)
+	if !ok || len(defs) == 0 {
+		return false
+	}
+	if _, has := root["definitions"]; has {
+		return false
+	}
+	if strings.Contains(string(core.MustJSON(root)), "#/definitions/") {
+		return false
+	}
+	hostile := []M{
+		{"type": "boolean"},
+		{"type": "integer", "minimum": 1000000},
+		{"type": "string", "enum": []any{"__stale__"}},
+		{"type": "object", "required": []any{"__stale__"}, "properties": M{"__stale__": M{"type": "string"}}},
+	}
+	stale := M{}
+	for i, k := range core.SortedKeys(defs) {
+		stale[k] = sgen.DeepCopy(hostile[i%len(hostile)])
+	}
+	root["definitions"] = stale
+	return true
+}
+
+// staleDefinitionVariants: copies of up to max of the given single-file cases, each with a stale "definitions" block
+// next to its "$defs" (same stream, same documents, label "stale-definitions"): judged exactly like the originals.
+func staleDefinitionVariants(pcs []*core.PCase, max int) []*core.PCase {
+	var out []*core.PCase
+	for _, pc := range pcs {
+		if len(out) >= max {
+			break
+		}
+		root, ok := pc.Schema.(M)
+		if !ok || len(pc.Files) > 0 || pc.MainBytes != nil {
+			continue
+		}
+		cp := sgen.DeepCopy(root).(M)
+		if !addStaleDefinitions(cp) {
+			continue
+		}
+		v := *pc
+		v.Schema = cp
+		v.Labels = append(append([]string{}, pc.Labels...), "stale-definitions")
+		out = append(out, &v)
+	}
+	return out
+}
